@@ -30,6 +30,14 @@ CHECKS = {
          "Random PDUs of every room version: content_hash and reference_hash must equal hand-written SHA-256 + base64 (alphabet by version) over the reference canonical JSON of the (reference-redacted) event; one mutation inside/outside each covered portion must change / not change the hash; reference hash invariant under ruma's redaction; padded events whose measured canonical form has exactly 65,531-65,540 bytes decide the size limit.",
          "Trusted: hand-written SHA-256/base64 (self-tested against ring::digest at start-up), reference redaction and canonical JSON.",
          "DESIGN.md section 5 C05"),
+ "C06": ("vf-stateres", "property-based testing (proptest) over simulated room histories: permutation / duplication metamorphic relations and repeated runs on fresh threads with OS-seeded hashers, against a fixed-point reference",
+         "For merge instances drawn from simulated multi-server room histories (tie-forcing timestamps): every permutation of the state-set list with the auth-chain list permuted consistently and independently, a duplicated set, 1-3 identical sets (must be returned unchanged), and repeated runs on fresh threads - std's RandomState gives fresh hasher keys per thread and per map - must all return one map, equal to the BTree-based reference of C07.",
+         "Hash iteration orders and thread schedules are sampled, not enumerated (no hook rewrites the public StateMap alias). Trusted: the C07 reference as fixed point.",
+         "DESIGN.md section 5 C06"),
+ "C07": ("vf-stateres", "model-based property testing: stateful room-history generator (vec of ops + interpreter) against a reference implementation of state resolution v2; bounded-exhaustive + random check of the topological sort",
+         "Simulated rooms under the rules of versions 2-11 (forks, merge events, concurrent power-level / membership / join-rule / ordinary state changes, bans racing joins, events without power-level ancestor, adversarial timestamps, salted event ids; only branch-valid events); any 2-4 DAG nodes are merged and resolve() must equal a reference written from the spec text over ordered maps (unconflicted/conflicted split, auth difference, reverse topological power ordering with sender power from the event's own auth events, iterative auth checks, mainline ordering with position infinity, unconflicted overlay). lexicographical_topological_sort is checked on all DAGs up to 3 (thorough 4) nodes x all key assignments and on random DAGs against 'always the minimum ready node'.",
+         "Trusted: ruma's auth_check as the authorization sub-routine of the reference (authorization itself is C08/C09's subject), the hand-written resolution reference. One reading left open by the spec (auth-chain closure through unconflicted events) is counted, not asserted.",
+         "DESIGN.md section 5 C07"),
  "C08": ("vf-stateres", "bounded-exhaustive enumeration of rule-group dimension products plus property-based concretisation, against a reference implementation of the authorization rules",
          "For every room version 1-11 (rules through RoomVersionId::rules()) the full product of the dimensions each authorization rule reads is enumerated (77k cells: create, federation prelude, aliases, join incl. restricted joins, invites, third-party invites with ring-made signatures, leave/kick/ban/unban with thresholds below/at/above, knock, unknown memberships, required power, state keys naming users, redaction, power-level changes field by field and entry by entry with int/string/float spellings) and compared with a rule-by-rule reference written from the spec; random renamings, level shifts and irrelevant state/content on top.",
          "Trusted: the hand-written reference rules, ring for third-party-invite signatures. Spec-silent readings (missing join rules, added/removed power-level fields, float/padded levels before v10, malformed state) are tagged and not asserted; rule 2's auth_events bookkeeping is outside the property's list.",
